@@ -150,6 +150,27 @@ Theorem C20_silent_connection_db0 : forall n c p, Forall (fun x => ss_conn x <> 
 Proof. intros n c p. apply silent_connection_db0. Qed.
 Print Assumptions C20_silent_connection_db0.
 
+(* ------------------------------------------------------------------ C20_cluster_single_database *)
+(* Cluster mode.  There every command, SELECT included, is executed by handleClusterCommits on the
+   ONE Manager all connections share, so the selection is one shared field: the program is run as
+   [shared_selection p] (all connection ids collapsed).  PREMISE, checked on the configuration path
+   by the tie (config.ParseConfigJson accepts a cluster JSON => cfg.Databases = 1): a cluster node
+   has exactly one database.  Under it the shared field is harmless: SELECT i, i <> 0, is refused
+   and changes nothing, and every interleaved program gets exactly the replies of the
+   per-connection server -- no connection can move another.  With two databases it is false
+   ([ex_shared_selection_needs_one_database]). *)
+Theorem C20_cluster_single_database : forall p s1 s2,
+  srv_wf 1 s1 -> srv_wf 1 s2 -> sdbs s1 = sdbs s2 ->
+  fst (srv_run s1 p) = fst (srv_run s2 (shared_selection p)).
+Proof. exact cluster_single_database. Qed.
+Print Assumptions C20_cluster_single_database.
+
+Theorem C20_cluster_select_nonzero_refused : forall s conn now nowms c arg hint,
+  srv_wf 1 s -> lower c = B "select" -> atoi64 arg <> Some 0 ->
+  srv_exec s conn now nowms [c; arg] hint = (err_other, s).
+Proof. exact select_nonzero_refused_one_database. Qed.
+Print Assumptions C20_cluster_select_nonzero_refused.
+
 (* ------------------------------------------------------------------ non-vacuity *)
 Definition ss (conn : Z) (args : list bytes) : sstep := mkSStep conn 100 100000 args RNil.
 
@@ -197,3 +218,13 @@ Example ex_reconnect :
      EvCmd (ss 1 [B "GET"; B "k"]); EvCmd (ss 1 [B "SET"; B "k"; B "in0"]); EvCmd (ss 7 [B "GET"; B "k"])])
   = [Some rOK; Some rOK; None; Some RNil; Some rOK; Some (RBulk (B "in0"))].
 Proof. vm_compute. reflexivity. Qed.
+
+(* the premise matters: with two databases a shared selection lets A's SELECT 1 move B *)
+Example ex_shared_selection_needs_one_database :
+  let p := [ss 2 [B "SET"; B "k"; B "byB"]; ss 1 [B "SELECT"; B "1"]; ss 2 [B "GET"; B "k"]] in
+  fst (srv_run (srv_init 2) p) = [rOK; rOK; RBulk (B "byB")] /\
+  fst (srv_run (srv_init 2) (shared_selection p)) = [rOK; rOK; RNil] /\
+  fst (srv_run (srv_init 1) p) = [rOK; err_other; RBulk (B "byB")] /\
+  fst (srv_run (srv_init 1) (shared_selection p)) = [rOK; err_other; RBulk (B "byB")] /\
+  srv_wf 1 (srv_init 1).
+Proof. vm_compute. repeat split; try reflexivity; intros; lia. Qed.
